@@ -199,6 +199,41 @@ F2 = {
     "scalar-const": lambda x, y: 1.5,
     "runge2": lambda x, y: 1.0 / (1.0 + x * x + 4.0 * y * y),
 }
+
+
+# the same integrand written in the styles user code comes in: the library calls it with two arrays of equal shape (or
+# two scalars); an integrand need not be a pure broadcasting expression
+def _g2(x, y):
+    return np.cos(x) * y + x * x + 0.25 * y
+
+
+def _f2_stack(x, y):
+    p = np.stack([np.asarray(x, dtype="f8"), np.asarray(y, dtype="f8")])          # position vectors
+    return np.cos(p[0]) * p[1] + p[0] * p[0] + 0.25 * p[1]
+
+
+def _f2_prealloc(x, y):
+    x = np.asarray(x, dtype="f8")
+    out = np.empty(x.shape)
+    out[...] = _g2(x, np.asarray(y, dtype="f8"))
+    return out
+
+
+def _f2_pointwise(x, y):
+    x, y = np.asarray(x, dtype="f8"), np.asarray(y, dtype="f8")
+    return np.array([float(_g2(a, b)) for a, b in zip(x.ravel(), y.ravel())]).reshape(x.shape)
+
+
+def _f2_masked(x, y):
+    x, y = np.asarray(x, dtype="f8"), np.asarray(y, dtype="f8")
+    out = np.zeros_like(x)
+    m = y > -1e300
+    out[m] = _g2(x[m], y[m])
+    return out
+
+
+F2.update({"style:stack": _f2_stack, "style:prealloc": _f2_prealloc, "style:pointwise": _f2_pointwise, "style:masked": _f2_masked})
+
 RANGES2 = [((0.0, 2.0), (-1.0, 3.0)), ((-1.0, 1.0), (-1.0, 1.0)), ((1.0, 0.0), (0.0, 2.0)),
            ((0.0, 1e-9), (-1e3, 1e3)), ((-3.0, -1.0), (2.0, 1.0)),
            ((2.0, 0.0), (3.0, -1.0)), ((1.0, -1.0), (1.0, -1.0))]          # BOTH ranges reversed: the signs cancel
